@@ -1776,6 +1776,7 @@ def model_lines(model_q):
             index.append((kind, case, o, len(lines)))
             lines.append(sx([Sym("encode"), opts_sx(case), t]))
             lines.append(sx([Sym("roundtrip"), opts_sx(case), t]))
+            lines.append(sx([Sym("link"), opts_sx(case), case["api"] == "memmap_", t]))
             dsx = dir_sx(o["dir"], [case["desc"]]) if o.get("outcome") == "ok" and "files" in o.get("dir", {}) and case["api"] != "memmap_like" else None
             lines.append(sx([Sym("decode"), dsx]) if dsx is not None else sx([Sym("valid"), 0]))
         elif kind == "perm":
@@ -1840,8 +1841,13 @@ def compare_with_model(R, model_q):
                     # inside the theorem's domain: decode (encode t) = norm t must hold of the model (a runtime instance of it)
                     if rt[1] != ["ok", rt[2]]:
                         R.mismatch("roundtrip:theorem-instance", case, "valid", rt[1])
-            if o["outcome"] == "ok" and not like and isinstance(out[i + 2], list) and out[i + 2] and out[i + 2][0] in ("ok", "raised"):
-                loaded_obs_cmp(R, "load", case, out[i + 2], o["loaded"])
+            lk = out[i + 2]
+            if lk == "differ" or (isinstance(lk, list) and lk[0] == "both-ok" and lk[1] != "t"):
+                R.mismatch("link:tasks-build-encode (model-internal instance of the stated link)", case, "-", lk)
+            else:
+                R.count("link-instances-checked")
+            if o["outcome"] == "ok" and not like and isinstance(out[i + 3], list) and out[i + 3] and out[i + 3][0] in ("ok", "raised"):
+                loaded_obs_cmp(R, "load", case, out[i + 3], o["loaded"])
         elif kind == "perm":
             tl = out[i]
             real_tasks = o.get("tasks") or []
